@@ -1,6 +1,7 @@
 package props
 
 import (
+	"net"
 	"bytes"
 	"crypto/aes"
 	"crypto/cipher"
@@ -488,6 +489,116 @@ func c25StdPeerKeyUpdates() *explore.Scenario {
 				}
 			}
 			r.Obs = fmt.Sprintf("ok|%d", len(ops))
+			return
+		},
+	}
+}
+
+// flakyConn delivers the peer's bytes in two pieces with one temporary (timeout) error in between:
+// the first Read after arming returns at most `first` bytes, the next one fails with a deadline
+// error although more bytes are waiting, later Reads are normal. A read deadline that expires in
+// the middle of a record is a retryable condition: the bytes already received must not be lost.
+type flakyConn struct {
+	*peer.Endpoint
+	armed bool
+	first int
+	stage int
+}
+
+type c25Timeout struct{}
+
+func (c25Timeout) Error() string   { return "i/o timeout (scripted)" }
+func (c25Timeout) Timeout() bool   { return true }
+func (c25Timeout) Temporary() bool { return true }
+
+func (f *flakyConn) Read(b []byte) (int, error) {
+	if !f.armed {
+		return f.Endpoint.Read(b)
+	}
+	switch f.stage {
+	case 0:
+		f.stage = 1
+		if len(b) > f.first {
+			b = b[:f.first]
+		}
+		return f.Endpoint.Read(b)
+	case 1:
+		f.stage = 2
+		return 0, c25Timeout{}
+	}
+	return f.Endpoint.Read(b)
+}
+
+// c25RetryAfterTimeout — what the peer wrote arrives intact when the reader's transport times out
+// once in the middle of a record and Read is simply called again.
+func c25RetryAfterTimeout() *explore.Scenario {
+	type sv struct {
+		name string
+		vers uint16
+		id   uint16
+	}
+	suites := []sv{{"tls13-aes128", tls.VersionTLS13, tls.TLS_AES_128_GCM_SHA256}, {"tls13-chacha", tls.VersionTLS13, tls.TLS_CHACHA20_POLY1305_SHA256},
+		{"tls12-gcm", tls.VersionTLS12, tls.TLS_ECDHE_ECDSA_WITH_AES_128_GCM_SHA256}, {"tls12-cbc", tls.VersionTLS12, tls.TLS_ECDHE_ECDSA_WITH_AES_128_CBC_SHA}, {"tls10-cbc", tls.VersionTLS10, tls.TLS_ECDHE_ECDSA_WITH_AES_128_CBC_SHA}}
+	firsts := []int{1, 2, 3, 4, 5, 6, 13, 21, 40, 100}
+	return &explore.Scenario{
+		Name: "read-retried-after-a-timeout-in-mid-record",
+		Run: func(x *explore.X) (r explore.Result) {
+			s := suites[x.Choose("suite", len(suites))]
+			first := firsts[x.Choose("first-piece", len(firsts))]
+			size := []int{1, 60, 3000}[x.Choose("size", 3)]
+			what := fmt.Sprintf("%s: server writes %d bytes, the client's transport delivers %d byte(s), times out once, then the rest", s.name, size, first)
+			msg := payload(size, 0x3c)
+			scfg := peer.ServerConfig()
+			scfg.MinVersion = tls.VersionTLS10
+			scfg.MaxVersion = s.vers
+			if s.vers != tls.VersionTLS13 {
+				scfg.CipherSuites = []uint16{s.id}
+			}
+			var fc *flakyConn
+			spec := handshakeSpec("tls13-minimal")
+			if s.vers == tls.VersionTLS13 {
+				spec.CipherSuites = []uint16{s.id}
+			} else {
+				spec = handshakeSpec("tls12-only")
+				spec.CipherSuites = []uint16{s.id}
+			}
+			ccfg := peer.ClientConfig("example.com")
+			ccfg.MinVersion = tls.VersionTLS10
+			hs := peer.Run(ccfg, tls.HelloCustom, scfg, peer.Opts{KeepOpen: true,
+				MakeClient: func(e *peer.Endpoint, cfg *tls.Config, id tls.ClientHelloID) *tls.UConn {
+					fc = &flakyConn{Endpoint: e, first: first}
+					return tls.UClient(fc, cfg, id)
+				},
+				Prepare:     func(u *tls.UConn) error { return u.ApplyPreset(spec) },
+				ServerAfter: func(c *tls.Conn) error { _, err := c.Write(msg); return err }})
+			defer hs.Finish()
+			if !hs.OK() {
+				r.Violate("INFRA|c25-flaky-handshake", "%s: %v / %v", what, hs.CErr, hs.SErr)
+				return
+			}
+			r.Nontrivial = true
+			r.Class = what
+			fc.armed = true
+			var got []byte
+			timeouts := 0
+			buf := make([]byte, 4096)
+			for len(got) < len(msg) {
+				n, err := hs.U.Read(buf)
+				got = append(got, buf[:n]...)
+				if err != nil {
+					if ne, ok := err.(net.Error); ok && ne.Timeout() && timeouts < 3 {
+						timeouts++
+						continue // the application retries, as after any expired read deadline
+					}
+					r.Violate(fmt.Sprintf("C25|retry-after-timeout|vers=%04x|%s", s.vers, truncStr(errClass(err), 60)), "%s: after %d of %d bytes and %d timeout(s) Read fails with %v", what, len(got), len(msg), timeouts, err)
+					return
+				}
+			}
+			if !bytes.Equal(got, msg) {
+				r.Violate("C25|retry-after-timeout|data-differs", "%s: the bytes read are not the bytes written", what)
+			}
+			r.Count("retries_after_timeout", timeouts)
+			r.Obs = fmt.Sprintf("ok|timeouts=%d", timeouts)
 			return
 		},
 	}
